@@ -35,7 +35,11 @@ res["confirmed"] = ok
 # run the check: on /repo with the patch applied, or (--in-worktree) on the patched scratch worktree while /repo is left alone
 check = a.check or a.prop
 if a.in_worktree:
+    head = sh("git -C /repo rev-parse HEAD")[1].strip()
+    sh("git checkout -q --detach %s" % head, cwd=a.worktree)       # the scratch worktree follows /repo's current commit
     rc, out = sh("git apply %s" % patch, cwd=a.worktree)
+    if rc != 0:
+        print("patch does not apply to the current commit:", out); sys.exit(2)
     try:
         t0 = time.time()
         ev = "/tmp/seed-evidence-%d" % os.getpid()
